@@ -49,6 +49,11 @@ def arr_equal_ulp(a, b, ulps=4):
     if a.dtype.kind not in 'fc':
         return bool(np.array_equal(a, b))
     with np.errstate(all='ignore'):
+        if a.dtype.kind == 'f':
+            # a result within a factor 2 of overflow is in the same class as an overflowed one
+            big = np.finfo(a.dtype).max / 2
+            a = np.where(np.abs(a) > big, np.sign(a) * np.inf, a).astype(a.dtype)
+            b = np.where(np.abs(b) > big, np.sign(b) * np.inf, b).astype(b.dtype)
         fin_a, fin_b = np.isfinite(a), np.isfinite(b)
         if not np.array_equal(fin_a, fin_b):
             return False
